@@ -87,9 +87,15 @@ impl Block for ZeroCrossing {
         if o.is_empty() {
             return Ok(BlockRet::WaitForStream(&self.dst, 1));
         }
+        // The clock output, if any, needs room too.
+        if let Some(c) = self.out_clock.as_ref() {
+            if c.write_buf()?.is_empty() {
+                return Ok(BlockRet::WaitForStream(c, 1));
+            }
+        }
         let mut n = 0;
         let mut opos = 0;
-        let mut out_clock = match self.out_clock.as_mut().map(|x| x.write_buf()) {
+        let mut out_clock = match self.out_clock.as_ref().map(|x| x.write_buf()) {
             None => None,
             Some(Ok(x)) => Some(x),
             Some(Err(e)) => return Err(e),
